@@ -480,3 +480,31 @@ def _strategy(tier):
 
 PARTS = [Part("sinr", _strategy, quick=3000, thorough=60000,
               quick_shards=8)]
+
+
+# ----------------------------------------------------------------------------
+# every direct library call made by this check must leave the arrays handed
+# to it unchanged (core.GuardedCalls)
+# ----------------------------------------------------------------------------
+def _guard_targets():
+    from pyphysim.channels import multiuser
+    from pyphysim.ia import iabase
+    t = []
+    for cls in (multiuser.MultiUserChannelMatrix,
+                multiuser.MultiUserChannelMatrixExtInt):
+        t += [(cls, n) for n in ("calc_SINR", "calc_JP_SINR", "calc_Q",
+                                 "calc_JP_Q",
+                                 "calc_cov_matrix_extint_plus_noise",
+                                 "set_pathloss", "init_from_channel_matrix")]
+    t += [(iabase.IASolverBaseClass, n) for n in ("set_precoders",
+                                                   "set_receive_filters")]
+    return t
+
+
+_unguarded_check = check
+
+
+def check(case, ctx):  # noqa: F811
+    from ..core import GuardedCalls
+    with GuardedCalls(_guard_targets(), dict(part=case.get("part"))):
+        return _unguarded_check(case, ctx)
